@@ -86,7 +86,8 @@ def probe_tokens(p, pins, try_pins):
             continue
         k, lab = parse_label(ti["label"])
         t = dict(k=k, lab=lab, slotok=(slot_from_serial(ti["serial"]) == s),
-                 userinit=bool(ti["flags"] & K.CKF_USER_PIN_INITIALIZED))
+                 userinit=bool(ti["flags"] & K.CKF_USER_PIN_INITIALIZED),
+                 ulow=bool(ti["flags"] & K.CKF_USER_PIN_COUNT_LOW), slow=bool(ti["flags"] & K.CKF_SO_PIN_COUNT_LOW))
         if try_pins:
             so_ok, user_ok = [], []
             rv, ss = p.open_session(s, True)
@@ -114,18 +115,32 @@ def probe_tokens(p, pins, try_pins):
 
 
 def helper_main(lib, conf, pinfile):
-    os.environ["SOFTHSM2_CONF"] = conf
+    """Every probe works on a COPY of the token directory: trying PINs writes the PIN status flags of a token."""
+    import shutil
+    import tempfile
     pins = {k: bytes.fromhex(v) for k, v in json.load(open(pinfile)).items()}
+    lines = open(conf).read().splitlines()
+    tokdir = [l.split("=", 1)[1].strip() for l in lines if l.startswith("directories.tokendir")][0]
     p = P11(lib)
     for line in sys.stdin:
         if line.strip() != "probe":
             break
-        rv = p.initialize()
-        if rv:
-            out = dict(err="init:" + rvname(rv))
-        else:
-            out = probe_tokens(p, pins, True)
-            p.finalize()
+        tmp = tempfile.mkdtemp(prefix="fresh", dir=os.path.dirname(conf))
+        try:
+            shutil.copytree(tokdir, os.path.join(tmp, "tokens"))
+            c2 = os.path.join(tmp, "softhsm2.conf")
+            with open(c2, "w") as f:
+                f.write("\n".join(("directories.tokendir = " + os.path.join(tmp, "tokens")) if l.startswith("directories.tokendir")
+                                  else l for l in lines) + "\n")
+            os.environ["SOFTHSM2_CONF"] = c2
+            rv = p.initialize()
+            if rv:
+                out = dict(err="init:" + rvname(rv))
+            else:
+                out = probe_tokens(p, pins, True)
+                p.finalize()
+        finally:
+            shutil.rmtree(tmp, ignore_errors=True)
         sys.stdout.write(json.dumps(out) + "\n")
         sys.stdout.flush()
 
@@ -374,10 +389,12 @@ class TokDriver(Harness):
             fr = {"toks": [], "nfree": -1, "err": fr["err"]}
         for t in fr["toks"]:
             for key, dv in (("pub", []), ("priv", []), ("so_pins", []), ("user_pins", []), ("lab", "?"),
-                            ("slotok", False), ("userinit", False)):
+                            ("slotok", False), ("userinit", False), ("ulow", False),
+                            ("slow", False)):
                 t.setdefault(key, dv)
         for t in ev["live"]["toks"]:
-            for key, dv in (("vis", [-9]), ("lab", "?"), ("slotok", False), ("userinit", False)):
+            for key, dv in (("vis", [-9]), ("lab", "?"), ("slotok", False), ("userinit", False), ("ulow", False),
+                                ("slow", False)):
                 t.setdefault(key, dv)
         ev["fresh"] = fr
         return ev
